@@ -10,6 +10,7 @@ import (
 	"encoding/binary"
 	"encoding/hex"
 	"fmt"
+	"math"
 	"math/rand"
 	"sort"
 
@@ -220,6 +221,13 @@ func (u *Universe) Gas(g string, e, pos int) int64 {
 		return int64(u.GasLimit)
 	case "Above":
 		return int64(u.GasLimit + 1 + h%5000)
+	// near MaxInt64: the column is an int64 and the syncer admits every value that fits
+	case "Half":
+		return 1 << 62
+	case "Max1":
+		return math.MaxInt64 - 1
+	case "Max":
+		return math.MaxInt64
 	}
 	panic("gas class " + g)
 }
@@ -227,6 +235,12 @@ func (u *Universe) Gas(g string, e, pos int) int64 {
 // GasClass is the inverse of Gas.
 func (u *Universe) GasClass(v int64) string {
 	switch {
+	case v == 1<<62:
+		return "Half"
+	case v == math.MaxInt64-1:
+		return "Max1"
+	case v == math.MaxInt64:
+		return "Max"
 	case uint64(v) >= u.MinGas && uint64(v) <= u.GasUnit:
 		return "Low"
 	case uint64(v) == u.GasLimit:
